@@ -170,8 +170,15 @@ def r5_4(ctx):
     ctx.end()
 
 
+def r5_5(ctx):
+    """Liveness needs the release: a resource that keeps a FINISHED task is never FREE again (shared with C03 R3.3)."""
+    from .C03 import r3_3
+    r3_3(ctx)
+
+
 def run(ctx):
     r5_1(ctx)
     r5_2(ctx)
     r5_3(ctx)
     r5_4(ctx)
+    r5_5(ctx)
